@@ -103,9 +103,7 @@ func c30StartMain(dir string) *c30Gateway {
 		main()
 	}()
 	for _, ch := range []chan struct{}{listening, gotSig} {
-		select {
-		case <-ch:
-		case <-time.After(2 * time.Minute):
+		if !c30Wait(ch, 300) {
 			vr.Fatalf("c30: main() did not come up")
 		}
 	}
@@ -115,12 +113,22 @@ func c30StartMain(dir string) *c30Gateway {
 func (g *c30Gateway) stop() {
 	// main() waits for every connection handler to return: all client ends are closed by now
 	g.sig <- os.Interrupt
-	select {
-	case <-g.mainDone:
-	case <-time.After(2 * time.Minute):
+	if !c30Wait(g.mainDone, 300) {
 		vr.Fatalf("c30: main() did not shut down")
 	}
 	g.restore()
+}
+
+// c30Wait waits for ch for at most n one-second ticks (robust against clock jumps).
+func c30Wait(ch <-chan struct{}, n int) bool {
+	for i := 0; i < n; i++ {
+		select {
+		case <-ch:
+			return true
+		case <-time.After(time.Second):
+		}
+	}
+	return false
 }
 
 type c30Client struct {
@@ -133,15 +141,20 @@ func (g *c30Gateway) dial() *c30Client {
 	if g.raft != nil {
 		// raft-backed deployment: the real server + raftBackend over the harness-owned store
 		rs := g.raft
-		go rs.handleConn(srv)
+		go rs.handleConn(vrespServerConn{srv})
 	} else {
-		select {
-		case g.ln.conns <- srv:
-		case <-time.After(2 * time.Minute):
+		accepted := false
+		for ticks := 0; !accepted && ticks < 300; ticks++ {
+			select {
+			case g.ln.conns <- vrespServerConn{srv}:
+				accepted = true
+			case <-time.After(time.Second):
+			}
+		}
+		if !accepted {
 			vr.Fatalf("c30: gateway does not accept")
 		}
 	}
-	_ = cli.SetDeadline(time.Now().Add(10 * time.Minute)) // harness guard only
 	return &c30Client{conn: cli, rd: bufio.NewReader(cli)}
 }
 
@@ -388,8 +401,11 @@ func (e *c30Exec) step(i int) {
 		t.parked = ""
 		t.resume <- struct{}{}
 	}
-	guard := time.NewTimer(90 * time.Second)
+	// guard: counts one-second ticks (a suspended sandbox makes clocks jump: that costs one
+	// tick here, whereas a single long deadline would fire spuriously)
+	guard := time.NewTicker(time.Second)
 	defer guard.Stop()
+	ticks := 0
 	for again := true; again; {
 		again = false
 		select {
@@ -408,7 +424,10 @@ func (e *c30Exec) step(i int) {
 			t.done, t.reply, t.parked = true, rep, ""
 			e.trace = append(e.trace, fmt.Sprintf("%d:%s->reply(%s)", i, from, strings.TrimSpace(rep.Raw)))
 		case <-guard.C:
-			vr.Fatalf("c30: client %d neither parked nor replied (schedule so far %v)", i, e.trace)
+			if ticks++; ticks >= 300 {
+				vr.Fatalf("c30: client %d neither parked nor replied (schedule so far %v)", i, e.trace)
+			}
+			again = true
 		}
 	}
 	s.mu.Lock()
